@@ -254,6 +254,9 @@ var c13MetaAlphabet = []c13MetaDef{
 }
 
 func c13Meta(name string) []*conformancev1.Header {
+	if name == "" {
+		return nil
+	}
 	for _, m := range c13MetaAlphabet {
 		if m.Name == name {
 			return c13CloneHeaders(m.Hdrs)
@@ -776,6 +779,31 @@ func (c *c13Case) examine() ([]string, string) {
 	panic("bad format " + c.Format)
 }
 
+// keyFormat: the wire format a verdict is about (cases that go through the
+// dispatcher are attributed to the format their content type selects).
+func (c *c13Case) keyFormat() string {
+	if c.Format != "wire" || c.Wire == nil {
+		return c.Format
+	}
+	ct := c.Wire.ContentType
+	if ct == "" {
+		ct = c.Wire.Header.Get("Content-Type")
+	}
+	switch {
+	case c.Class == "http-trailers-outside-grpc":
+		return "http-trailers"
+	case ct == "application/json" && c.Wire.Status != 200:
+		return "connect-unary-error"
+	case strings.HasPrefix(ct, "application/connect+"):
+		return "connect-end-stream"
+	case strings.HasPrefix(ct, "application/grpc-web"):
+		return "grpc-web-trailers"
+	case strings.HasPrefix(ct, "application/grpc"):
+		return "grpc-trailers"
+	}
+	return "http-trailers"
+}
+
 type c13Verdict struct {
 	Key, Detail string
 }
@@ -784,14 +812,14 @@ type c13Verdict struct {
 func c13Judge(c *c13Case) (verdicts []c13Verdict, outcome string) {
 	msgs, panicked := c.examine()
 	if panicked != "" {
-		verdicts = append(verdicts, c13Verdict{"panic:" + c.Format, "examiner panicked\n" + c.describe() + "\n" + panicked})
+		verdicts = append(verdicts, c13Verdict{"panic:" + c.keyFormat(), "examiner panicked\n" + c.describe() + "\n" + panicked})
 		return verdicts, "panic"
 	}
 	switch c.Expect {
 	case "silent":
 		seen := map[string]bool{}
 		for _, m := range msgs {
-			key := "false-feedback:" + c.Format + ":" + c13Slug(c13Class(m))
+			key := "false-feedback:" + c.keyFormat() + ":" + c13Slug(c13Class(m))
 			if seen[key] {
 				continue
 			}
@@ -800,7 +828,7 @@ func c13Judge(c *c13Case) (verdicts []c13Verdict, outcome string) {
 		}
 	case "feedback":
 		if len(msgs) == 0 {
-			verdicts = append(verdicts, c13Verdict{"malformation-not-flagged:" + c.Format + ":" + c.Class,
+			verdicts = append(verdicts, c13Verdict{"malformation-not-flagged:" + c.keyFormat() + ":" + c.Class,
 				"malformed input drew no feedback at all\n" + c.describe()})
 		}
 	}
